@@ -273,12 +273,15 @@ CHANNELS = [
     ("nt_files_gz", "nt", "gz", "files"),
     ("nt_zip_members", "nt", "zip", "zipn"),
     ("nt_zips", "nt", "zip", "zips"),
+    ("nt_zip_nested", "nt", "zip", "zipn-nested"),
+    ("nt_zips_nested", "nt", "zip", "zips-nested"),
     ("tsv_raw", "tsv_spo", None, "raw"),
     ("tsv_file", "tsv_spo", None, "file"),
     ("tsv_file_blankline", "tsv_spo", None, "file-blank"),
     ("tsv_xz", "tsv_spo", "xz", "file"),
     ("tsv_files", "tsv_spo", None, "files"),
     ("tsv_zip_members", "tsv_spo", "zip", "zipn"),
+    ("tsv_zip_nested", "tsv_spo", "zip", "zipn-nested"),
     ("ttli_raw", "turtle_iter", None, "raw"),
     ("ttli_file", "turtle_iter", None, "file"),
     ("ttli_gz", "turtle_iter", "gz", "file"),
@@ -289,6 +292,7 @@ CHANNELS = [
     ("turtle_gz", "turtle", "gz", "file"),
     ("turtle_files", "turtle", None, "files"),
     ("turtle_zip_members", "turtle", "zip", "zipn"),
+    ("turtle_zip_nested", "turtle", "zip", "zipn-nested"),
     ("xml_file", "xml", None, "file"),
     ("jsonld_file", "json-ld", None, "file"),
     ("n3_file", "n3", None, "file"),
@@ -322,6 +326,10 @@ def doc_for(fmt, ts):
 def build_channel(ch, ts, r, d):
     """writes the files of one channel; returns {'kw': Shaper source kwargs, 'src': model source rows, ...}"""
     name, fmt, cm, layout = ch
+    # "-nested": the archive of a zipped folder -- a directory entry first (namelist() lists it; opening it
+    # gives an empty member) and members whose names hold '/'
+    nested = layout.endswith("-nested")
+    layout = layout[:-len("-nested")] if nested else layout
     ext = {"nt": "nt", "tsv_spo": "tsv", "turtle_iter": "ttl", "turtle": "ttl", "xml": "xml", "json-ld": "json",
            "n3": "n3"}[fmt]
     info = {"name": name, "fmt": fmt, "cm": cm, "layout": layout, "gz": [], "xz": [], "zip": [], "pieces": []}
@@ -331,6 +339,8 @@ def build_channel(ch, ts, r, d):
     parts_ok = layout in ("files", "zipn", "zips", "urls")
     if parts_ok:
         parts = partition(ts, r, 4, allow_empty=(fmt in ("nt", "tsv_spo")))
+        if nested and len(parts) == 1 and len(ts) > 1:
+            parts = [ts[:len(ts) // 2], ts[len(ts) // 2:]]
     else:
         parts = [ts]
     docs = [doc_for(fmt, p).encode("utf-8") for p in parts]
@@ -384,6 +394,11 @@ def build_channel(ch, ts, r, d):
         info["kind"] = "files"
     elif layout in ("zip1", "zipn"):
         members = [("m%d.%s" % (i, ext), data) for i, data in enumerate(docs)]
+        if nested:
+            members = [("graph/", b"")] + [(("graph/sub/" if i % 2 else "graph/") + nm, data)
+                                           for i, (nm, data) in enumerate(members)]
+            if r.random() < 0.5:         # a flat member next to the folder
+                members[1] = (members[1][0].split("/")[-1], members[1][1])
         path = os.path.join(d, "%s.zip" % name)
         st = write_zip(path, members)
         info["zip"].append((st, members))
@@ -400,6 +415,8 @@ def build_channel(ch, ts, r, d):
         paths, info["src"] = [], []
         for gi, grp in enumerate(groups):
             members = [("a%d_m%d.%s" % (gi, i, ext), docs[i]) for i in grp]
+            if nested:
+                members = [("d%d/" % gi, b"")] + [("d%d/%s" % (gi, nm), data) for nm, data in members]
             path = os.path.join(d, "%s_%d.zip" % (name, gi))
             st = write_zip(path, members)
             info["zip"].append((st, members))
